@@ -225,11 +225,14 @@ STAGES = [
     "starmap_zip", "min_by", "max_by", "join", "group_join", "throttle_with_mapper", "delay_with_mapper", "timeout_with_mapper", "exclusive",
     "switch_latest", "merge_all", "observe_on", "subscribe_on", "skip_until_with_time", "take_until_with_time",
     "oern_factory_stage", "catch_branch",
+    # unhashable elements / keys with the default comparer (key-based operators)
+    "distinct_list_elems", "distinct_list_key", "duc_list_key", "to_set_lists", "min_by_list_key", "group_by_list_key", "to_dict_list_key",
+    "distinct_list_elems", "distinct_list_key",
 ]
 SOURCES = ["cold", "cold", "cold", "of", "range", "catch", "oern", "concat", "for_in", "merge", "zip", "defer", "repeat_value",
            "from_callback", "timer", "interval", "generate", "if_then", "empty", "throw", "return_value", "from_iterable",
            "combine_latest", "with_latest_from", "fork_join", "amb", "case", "using", "start", "from_marbles_cold", "generate_with_relative_time",
-           "oern_factory", "oern_factory", "oern_mixed"]
+           "oern_factory", "oern_factory", "oern_mixed", "range_open_step", "range_open_step", "range_step"]
 # sources / stages whose fallback is chosen by a FACTORY that branches on the error it is handed (None for the first one)
 FACTORY_KINDS = {"oern_factory", "oern_mixed", "oern_factory_stage", "catch_branch"}
 SEQ_ONLY = {"while_do", "do_while"}
@@ -357,6 +360,11 @@ def build_source(w: World, case):
         return rx.from_iterable(list(vals))
     if k == "range":
         return rx.range(n + 1)
+    if k == "range_open_step":
+        # open-ended stepped form, bounded downstream
+        return rx.range(10 + n, None, 1 + n).pipe(ops.take(4))
+    if k == "range_step":
+        return rx.range(n, 20, 1 + n)
     if k == "catch":
         return rx.catch(w.cold(0), w.cold(1), w.cold(2))
     if k == "oern":
@@ -446,6 +454,13 @@ def apply_stage(w: World, o, st, idx):
     if name == "skip_while": return o.pipe(ops.skip_while(lambda x: _num(x) != n))
     if name == "skip_while_indexed": return o.pipe(ops.skip_while_indexed(lambda x, i: i < n))
     if name == "distinct": return o.pipe(ops.distinct(lambda x: _num(x) % m))
+    if name == "distinct_list_elems": return o.pipe(ops.map(lambda x: [_num(x) % m]), ops.distinct())
+    if name == "distinct_list_key": return o.pipe(ops.distinct(lambda x: {"k": _num(x) % m}))
+    if name == "duc_list_key": return o.pipe(ops.distinct_until_changed(lambda x: [_num(x) % m]))
+    if name == "to_set_lists": return o.pipe(ops.map(lambda x: [_num(x) % m]), ops.to_set())
+    if name == "min_by_list_key": return o.pipe(ops.min_by(lambda x: [_num(x) % m]))
+    if name == "group_by_list_key": return o.pipe(ops.group_by(lambda x: [_num(x) % m]), ops.flat_map(lambda g: g.pipe(ops.to_list())))
+    if name == "to_dict_list_key": return o.pipe(ops.to_dict(lambda x: [_num(x) % m]))
     if name == "distinct_until_changed": return o.pipe(ops.distinct_until_changed(lambda x: _num(x) % m))
     if name == "scan": return o.pipe(ops.scan(lambda a, x: _num(a) + _num(x)))
     if name == "scan_seed": return o.pipe(ops.scan(lambda a, x: a + _num(x), n))
